@@ -15,10 +15,59 @@ using namespace draco;
 using vf::Reporter;
 using vf::Rng;
 
-static const char *kDist[] = {"constant", "two_symbol", "uniform_small", "uniform_wide", "zipf", "outlier", "many_distinct", "equal_counts", "geometric", "runs"};
+static const char *kDist[] = {"constant", "two_symbol", "uniform_small", "uniform_wide", "zipf", "outlier", "many_distinct", "equal_counts", "geometric", "runs", "boundary_prob"};
 
-static void Gen(Rng &r, bool thorough, std::vector<uint32_t> *out, int *dist, uint64_t *maxv) {
-  int d = r.below(10);
+// Frequency table engineered so that one symbol's quantized rANS probability lands on (or next to) a boundary of
+// the table format: 2^6 and 2^14 (1/2/3-byte entries), half of the precision, precision - (distinct - 1).
+// The raw scheme's precision follows from the number of distinct symbols and the compression level
+// (mirrored here only to aim the generator; a miss just makes an ordinary skewed input). With n = 2^precision
+// values the quantized probabilities equal the counts.
+static void GenBoundary(Rng &r, std::vector<uint32_t> *out, int *hint_level, int *hint_raw) {
+  const int level = r.below(3) == 0 ? -1 : static_cast<int>(r.below(11));
+  const int leff = level < 0 ? 7 : level;
+  const int adj = leff < 4 ? -2 : leff < 6 ? -1 : leff > 9 ? 2 : leff > 7 ? 1 : 0;
+  int prec = 0, ubits = 0;
+  for (int tries = 0; tries < 50; ++tries) {
+    ubits = static_cast<int>(r.range(2, 13));                       // bit length of the number of distinct symbols
+    const int b = std::min(std::max(1, ubits + adj), 18);
+    prec = std::min(std::max(12, (3 * b) / 2), 20);
+    if (prec <= 17 || (prec == 18 && r.below(4) == 0)) break;            // n = 2^prec values: keep cases small
+  }
+  if (prec > 18) { prec = 12; ubits = 4; }
+  const uint32_t n = 1u << prec;
+  const uint32_t lo = ubits <= 1 ? 2 : (1u << (ubits - 1)), hi = (1u << ubits) - 1;
+  uint32_t distinct = lo + r.below(hi - lo + 1);                      // MostSignificantBit(distinct) + 1 == ubits
+  if (distinct < 2) distinct = 2;
+  const uint32_t others = distinct - 1;
+  const uint32_t targets[] = {1u << 14, (1u << 14) - 1, (1u << 14) + 1, 1u << 6, (1u << 6) - 1, (1u << 6) + 1, n / 2, n / 2 - 1, n / 2 + 1, n / 4, n - others, 1u << 13, 1u << 15};
+  uint32_t dom = targets[r.below(13)];
+  if (r.below(8) == 0) dom = (dom >> 1) + r.below(3);               // in case the actual precision is one bit off
+  if (dom < 1) dom = 1;
+  if (dom + others > n) dom = n - others;
+  std::vector<uint32_t> &v = *out;
+  v.clear();
+  v.reserve(n);
+  const uint32_t stride = 1 + r.below(3), dom_sym = r.below(distinct);
+  const uint32_t rem = n - dom, base = rem / others, extra = rem % others;
+  // optionally a second boundary symbol
+  uint32_t second = others > 1 && r.below(3) == 0 ? targets[r.below(6)] : 0;
+  if (second && (second + (others - 1) > rem)) second = 0;
+  uint32_t idx = 0;
+  for (uint32_t s = 0; s < distinct; ++s) {
+    uint32_t c;
+    if (s == dom_sym) c = dom;
+    else if (second) { if (idx == 0) c = second; else { const uint32_t rem2 = rem - second, o2 = others - 1; c = rem2 / o2 + ((idx - 1) < rem2 % o2 ? 1 : 0); } ++idx; }
+    else { c = base + (idx < extra ? 1 : 0); ++idx; }
+    for (uint32_t j = 0; j < c; ++j) v.push_back(s * stride);
+  }
+  for (size_t i = v.size() - 1; i > 0; --i) std::swap(v[i], v[r.below(i + 1)]);
+  *hint_level = level;
+  *hint_raw = r.below(4) != 0;
+}
+
+static void Gen(Rng &r, bool thorough, std::vector<uint32_t> *out, int *dist, uint64_t *maxv, int *hint_level, int *hint_raw) {
+  *hint_level = -2; *hint_raw = -1;
+  int d = r.below(11);
   if (d == 6 && r.below(thorough ? 4 : 20) != 0) d = 2;  // many_distinct is expensive: keep rare
   *dist = d;
   size_t n;
@@ -51,6 +100,7 @@ static void Gen(Rng &r, bool thorough, std::vector<uint32_t> *out, int *dist, ui
               if (r.below(2)) { v.push_back(r.below(k)); }
               for (size_t i = v.size() - 1; i > 0; --i) std::swap(v[i], v[r.below(i + 1)]); break; }
     case 8: { double p = r.uniform(0.02, 0.9); for (size_t i = 0; i < n; ++i) { uint32_t x = 0; while (!r.chance(p) && x < 100000) ++x; v.push_back(x); } break; }
+    case 10: GenBoundary(r, out, hint_level, hint_raw); break;
     default: { uint32_t cur = r.below(50); for (size_t i = 0; i < n; ++i) { if (r.below(40) == 0) cur = r.below(1u << r.range(1, 20)); v.push_back(cur); } break; }
   }
   uint64_t m = 0;
@@ -64,8 +114,10 @@ int main(int argc, char **argv) {
     std::vector<uint32_t> sym;
     int dist;
     uint64_t maxv;
-    Gen(r, thorough, &sym, &dist, &maxv);
+    int hint_level, hint_raw;
+    Gen(r, thorough, &sym, &dist, &maxv, &hint_level, &hint_raw);
     int comps = r.below(3) == 0 ? 1 : static_cast<int>(r.range(1, 6));
+    if (hint_level != -2) comps = r.below(2) ? 1 : static_cast<int>(1u << r.below(3));  // n is a power of two: keep whole groups
     if (r.below(30) == 0) comps = 0;  // "<= 0 means 1" clause of the API
     int ceff = comps <= 0 ? 1 : comps;
     size_t n = sym.size() - sym.size() % ceff;  // API contract: whole groups
@@ -74,7 +126,12 @@ int main(int argc, char **argv) {
     Options opt;
     bool use_opt = r.below(4) != 0;
     int level = -1, method = -1;
-    if (use_opt) {
+    if (hint_level != -2) {
+      use_opt = true;
+      level = hint_level;
+      if (level >= 0) SetSymbolEncodingCompressionLevel(&opt, level);
+      if (hint_raw) { method = SYMBOL_CODING_RAW; SetSymbolEncodingMethod(&opt, SYMBOL_CODING_RAW); }
+    } else if (use_opt) {
       if (r.below(3) != 0) { level = r.below(11); SetSymbolEncodingCompressionLevel(&opt, level); }
       int m = r.below(4);
       // Forcing the raw scheme is the caller's explicit choice; its table is O(max value),
@@ -135,6 +192,12 @@ int main(int argc, char **argv) {
         uint8_t scheme = static_cast<uint8_t>(buf[1]);
         rep.count(std::string("scheme/") + (scheme == SYMBOL_CODING_TAGGED ? "tagged" : "raw"));
         if (scheme == SYMBOL_CODING_RAW) rep.count("raw_bit_length/" + std::to_string(static_cast<int>(static_cast<uint8_t>(buf[2]))));
+        if (scheme == SYMBOL_CODING_RAW && dist == 10) {
+          // Did the engineered table meet the coder's actual precision (counts == quantized probabilities)?
+          const int b = static_cast<uint8_t>(buf[2]);
+          const int prec = std::min(std::max(12, (3 * b) / 2), 20);
+          rep.count((1ull << prec) == n ? "boundary_precision_hit/" + std::to_string(prec) : std::string("boundary_precision_miss"));
+        }
         rep.count("class/" + cls);
         rep.count("level/" + std::to_string(level));
         rep.count("components/" + std::to_string(comps));
